@@ -1061,6 +1061,17 @@ class Models:
     # ------------------------------------------------------------------ builtin calls
     def call_builtin(self, ip, name: str, args, kwargs, node=None, fr=None):
         name = norm_np(name)
+        if name.startswith("numpy.") and kwargs.get("out") is not None:
+            # NumPy's out= argument: the result is written INTO the given array object (every holder of that object sees it)
+            out = kwargs["out"]
+            rest = {k: v for k, v in kwargs.items() if k != "out"}
+            if not isinstance(out, SArr) or out.shape is not None:
+                raise Unsupported(f"{name}(..., out=<{type(out).__name__}>)")
+            res = self.call_builtin(ip, name, args, rest, node, fr)
+            self.inplace_update(ip, out, res)
+            return out
+        if name.startswith("numpy.") and any(k in kwargs for k in ("where", "casting", "order", "subok")):
+            raise Unsupported(f"{name} with keyword(s) {sorted(kwargs)}")
         h = getattr(self, "b_" + name.replace(".", "_"), None)
         if h is not None:
             return h(ip, args, kwargs, node)
@@ -1503,6 +1514,19 @@ class Models:
         if getattr(ip.reg, "xarr_hooks", None) and type(a[0]).__name__ in ("XArr",):
             return self._xhook(ip, "sum", a, kw)
         return self.b_numpy_sum_real(ip, a, kw, node)
+
+    def b_numpy_ndim(self, ip, a, kw, node):
+        v = a[0]
+        if isinstance(v, (int, float, SReal, SInt, SBool, bool)):
+            return 0
+        if isinstance(v, SArr):
+            return 1 if v.shape is None else 2
+        if isinstance(v, (SSeq, PList)):
+            return 1
+        raise Unsupported(f"np.ndim of {type(v).__name__}")
+
+    def b_numpy_isscalar(self, ip, a, kw, node):
+        return isinstance(a[0], (int, float, SReal, SInt, bool))
 
     def b_numpy_any(self, ip, a, kw, node):
         return self._xhook(ip, "any", a, kw)
